@@ -29,6 +29,7 @@ type vNode struct {
 	Name      string
 	Type      data.NodeType
 	Parts     [][]byte // file: content blobs, in order
+	DupPart   []bool   // file: store this part even if the repository already has the blob (second copy)
 	Size      *uint64  // file: override of node.Size (default: sum of the parts)
 	Target    string   // symlink target
 	Children  []*vNode // dir
@@ -59,8 +60,9 @@ func vNodeToData(ctx context.Context, up restic.BlobSaver, n *vNode) *data.Node 
 		}
 		var size uint64
 		dn.Content = restic.IDs{}
-		for _, p := range n.Parts {
-			id, _, _, err := up.SaveBlob(ctx, restic.DataBlob, p, restic.ID{}, false)
+		for i, p := range n.Parts {
+			dup := i < len(n.DupPart) && n.DupPart[i]
+			id, _, _, err := up.SaveBlob(ctx, restic.DataBlob, p, restic.ID{}, dup)
 			if err != nil {
 				panic(err)
 			}
